@@ -195,10 +195,10 @@ check:
 		}
 		var pname string
 		switch {
-		case prefix == "", prefix == root.Prefix.Name:
-			pname = root.Prefix.Name + ":" + t.Name
+		case prefix == "", prefix == rootPrefix:
+			pname = rootPrefix + ":" + t.Name
 		default:
-			pname = fmt.Sprintf("%s[%s]:%s", prefix, root.Prefix.Name, t.Name)
+			pname = fmt.Sprintf("%s[%s]:%s", prefix, rootPrefix, t.Name)
 		}
 
 		return []error{fmt.Errorf("%s: unknown type: %s", Source(t), pname)}
